@@ -1196,6 +1196,16 @@ def svd_qn_rule(chk, src, rule):
         def tolist(self):
             return list(self.v)
 
+        def __neg__(self):
+            return Vec([-x for x in self.v])
+
+        def __mul__(self, o):
+            if isinstance(o, (int, float)):
+                return Vec([x * o for x in self.v])
+            raise AnalysisError(f"vector * {o!r}")
+
+        __rmul__ = __mul__
+
     class PArr(Sym):
         """matrix as a list of column provenances (tag, rows it occupies or None for 'the rows of its block')"""
         def __init__(self, nrows, cols):
@@ -1322,7 +1332,11 @@ def svd_qn_rule(chk, src, rule):
                   array=lambda x, **k: LList(list(x)) if isinstance(x, list) else x, flatnonzero=lambda m: where(m)[0],
                   abs=lambda x: Mag(f"abs({getattr(x, '_name', x)})") if isinstance(x, (Block, Mag)) else abs(x), absolute=lambda x: Mag("abs"), finfo=lambda *a: Sym("finfo", eps=1e-16, tiny=1e-300),
                   linalg=Sym("linalg", norm=lambda x, *a, **k: Mag("norm")), max=lambda x, *a, **k: x if isinstance(x, Mag) else max(x), amax=lambda x, *a, **k: x)
-    for mode, kw in (("economic SVD", {"full_matrices": False}), ("full SVD", {"full_matrices": True}), ("QR, system L", {"QR": True, "system": "L", "full_matrices": False})):
+    svals_plain = dict(svals)
+    for mode, kw in (("economic SVD", {"full_matrices": False}), ("economic SVD, equal singular values in different sectors", {"full_matrices": False}), ("full SVD", {"full_matrices": True}),
+                     ("QR, system L", {"QR": True, "system": "L", "full_matrices": False})):
+        svals.clear()
+        svals.update({0: [5, 3], 1: [3, 2, 1]} if "equal singular values" in mode else svals_plain)
         it = SymInterp(src, None, {"np": npx, "get_qn_mask": mask, "optimized_svd": svd, "scipy": Sym("scipy", linalg=Sym("linalg", qr=qr, rq=qr)), "set": lambda xs: sorted(set(xs)), "logger": Blob("logger")})
         it.max_depth = 10
         problems = []
@@ -1375,7 +1389,7 @@ def svd_qn_rule(chk, src, rule):
                 tag, sec, j, rows = c2[0], c2[1], c2[2], c[-1]
                 if tuple(rows) != cols_of[sec] or lab(list(qr_l)[k_]) != [tot - sec]:
                     problems.append(f"column {k_} of v: block of sector {sec} placed on rows {rows} with label {list(qr_l)[k_]}, expected rows {cols_of[sec]} and label {[tot - sec]}")
-            if mode == "economic SVD" and not problems:
+            if mode.startswith("economic SVD") and not problems:
                 trip_u = [(c[1], c[2]) for c in ucols]
                 trip_v = [((c[1:] if c[0] == "T" else c)[1], (c[1:] if c[0] == "T" else c)[2]) for c in vcols]
                 vals = [svals[s_][j] for s_, j in trip_u]
